@@ -658,7 +658,7 @@ pub fn pure_tc(eos: &Arc<Model>) -> Option<f64> {
     let mut consider = |s: feos_core::EosResult<St>| {
         if let Ok(s) = s {
             let t = s.temperature.to_reduced();
-            if t.is_finite() && t > 0.0 && best.map_or(true, |b| t > b) {
+            if t.is_finite() && t > 0.0 && t < 5000.0 && best.map_or(true, |b| t > b) {
                 best = Some(t);
             }
         }
@@ -684,6 +684,10 @@ impl ModelCase {
             let sub = Arc::new(eos.subset(&[i]));
             let t = if matches!(spec.kind, Kind::Fmt) {
                 None
+            } else if matches!(spec.kind, Kind::Pr) {
+                // the record carries the critical temperature; the critical-point solver
+                // occasionally converges to a spurious root at 1e5..1e7 K for cubic models
+                spec.pure[i]["model_record"]["tc"].as_f64()
             } else {
                 pure_tc(&sub)
             };
